@@ -344,6 +344,15 @@ def cases(rng, tier):
         S, T, U = rng.choice(SMALL), rng.choice(SMALL), rng.choice(SMALL)
         (a, b), (c, d), (e, f) = window(rng, S, 24), window(rng, T, 24), window(rng, U, 24)
         yield "XJ %s %s %s %d %d %d %d %d %d" % (S, T, U, a, b, c, d, e, f)
+    # ---- sign grid: every type pair at the zero crossing and at the limits (always complete) -----------------
+    for A in ALL:
+        for B in ALL:
+            va = [v for v in (tmin(A), -1, 0, 1, tmax(A)) if inr(A, v)]
+            vb = [v for v in (tmin(B), -1, 0, 1, tmax(B)) if inr(B, v)]
+            for a in va:
+                for b in vb:
+                    yield "L %s %s %d %d" % (A, B, a, b)
+                    yield "I %s %d %s %d" % (A, a, B, b)
     # ---- boundary grid over all type pairs -----------------------------------------------------------------
     keep = 1 if thorough else 6    # quick: every 6th point of the cross product, phase chosen by the seed
     phase = rng.below(keep)
